@@ -76,3 +76,35 @@ Lemma dft4_backward_not_parseval :
 Proof.
   exists (fun _ => 1). rewrite all_idx_4. unfold sum_over, rsum, cabs2, dft4. simpl. lra.
 Qed.
+
+(* the N = 4 transform satisfies the cosine-support premise (q = 1 is the only resolved wave) *)
+Lemma cos_quarter_turns phi :
+  cos (2 * PI * INR 1 * INR 0 / INR 4 + phi) = cos phi /\
+  cos (2 * PI * INR 1 * INR 1 / INR 4 + phi) = - sin phi /\
+  cos (2 * PI * INR 1 * INR 2 / INR 4 + phi) = - cos phi /\
+  cos (2 * PI * INR 1 * INR 3 / INR 4 + phi) = sin phi.
+Proof.
+  repeat split.
+  - f_equal. simpl. field.
+  - replace (2 * PI * INR 1 * INR 1 / INR 4 + phi) with (PI / 2 + phi) by (simpl; field).
+    rewrite cos_plus, cos_PI2, sin_PI2. ring.
+  - replace (2 * PI * INR 1 * INR 2 / INR 4 + phi) with (phi + PI) by (simpl; field).
+    apply neg_cos.
+  - replace (2 * PI * INR 1 * INR 3 / INR 4 + phi) with (3 * (PI / 2) + phi) by (simpl; field).
+    rewrite cos_plus, cos_3PI2, sin_3PI2. ring.
+Qed.
+
+Lemma dft4_cosine : dft_cosine dom4 dft4.
+Proof.
+  intros N q A phi c Hd Hq1 Hq4. unfold dom4 in Hd. injection Hd as ->.
+  assert (q = 1%nat) by lia. subst q.
+  destruct (cos_quarter_turns phi) as [C0 [C1 [C2 C3]]].
+  assert (SC : sin phi * sin phi + cos phi * cos phi = 1) by (pose proof (sin2_cos2 phi) as H; unfold Rsqr in H; exact H).
+  repeat split.
+  - intros m Hm H0 H1 H3. assert (m = 2%nat) by (simpl in H3; lia). subst m.
+    unfold cabs2, dft4, cosine_field. cbn [fst snd]. rewrite C0, C1, C2, C3. field.
+  - unfold cabs2, dft4, cosine_field. cbn [fst snd]. rewrite C0, C1, C2, C3.
+    replace (INR 4) with 4 by (simpl; ring). nra.
+  - change (4 - 1)%nat with 3%nat. unfold cabs2, dft4, cosine_field. cbn [fst snd]. rewrite C0, C1, C2, C3.
+    replace (INR 4) with 4 by (simpl; ring). nra.
+Qed.
